@@ -1,0 +1,108 @@
+//go:build verif
+
+package das
+
+import (
+	"context"
+	"sort"
+	"sync"
+	"time"
+)
+
+// VerifHook, when set, receives one event per coordinator critical section (emitted from the
+// coordinator goroutine, after the state change) and per worker step (emitted while holding the
+// worker lock, or from the worker goroutine at its gate / exit points). A hook may block: the
+// worker event "at" is used as a scheduler gate by the verification harness.
+var VerifHook func(ev string, kv map[string]any)
+
+func verifPairs(m map[uint64]retryAttempt) [][2]uint64 {
+	out := make([][2]uint64, 0, len(m))
+	for h, a := range m {
+		out = append(out, [2]uint64{h, uint64(a.count)})
+	}
+	sort.Slice(out, func(i, j int) bool { return out[i][0] < out[j][0] })
+	return out
+}
+
+func verifCoord(sc *samplingCoordinator, ev string, kv ...any) {
+	h := VerifHook
+	if h == nil {
+		return
+	}
+	s := &sc.state
+	ids := make([]int, 0, len(s.inProgress))
+	for id := range s.inProgress {
+		ids = append(ids, id)
+	}
+	sort.Ints(ids)
+	now := time.Now()
+	due := make([]uint64, 0)
+	for hh, a := range s.failed {
+		if a.after.Before(now) {
+			due = append(due, hh)
+		}
+	}
+	sort.Slice(due, func(i, j int) bool { return due[i] < due[j] })
+	m := map[string]any{
+		"next":    s.next,
+		"head":    s.networkHead,
+		"failed":  verifPairs(s.failed),
+		"due":     due,
+		"inRetry": verifPairs(s.inRetry),
+		"jobs":    ids,
+		"nextId":  s.nextJobID,
+		"done":    s.catchUpDone.Load(),
+	}
+	for i := 0; i+1 < len(kv); i += 2 {
+		m[kv[i].(string)] = kv[i+1]
+	}
+	h(ev, m)
+}
+
+func verifWorker(w *worker, ev string, height uint64, err error) {
+	h := VerifHook
+	if h == nil {
+		return
+	}
+	m := map[string]any{
+		"id":   w.state.id,
+		"type": string(w.state.jobType),
+		"from": w.state.from,
+		"to":   w.state.to,
+		"h":    height,
+		"err":  err != nil,
+	}
+	h(ev, m)
+}
+
+// VerifSetBackoff overrides the initial retry back-off interval (package default: one minute).
+func VerifSetBackoff(d time.Duration) { defaultBackoffInitialInterval = d }
+
+// VerifExpireBackoff makes the back-off of a failed height elapse: it pauses the coordinator the
+// same way SamplingStats does, rewrites the height's retry time to the past and lets the
+// coordinator continue (which then re-evaluates its retry queue, as after any other event).
+func (d *DASer) VerifExpireBackoff(ctx context.Context, height uint64) bool {
+	var wg sync.WaitGroup
+	wg.Add(1)
+	defer wg.Done()
+	select {
+	case d.sampler.waitCh <- &wg:
+	case <-ctx.Done():
+		return false
+	}
+	a, ok := d.sampler.state.failed[height]
+	if !ok {
+		return false
+	}
+	a.after = time.Time{}
+	d.sampler.state.failed[height] = a
+	return true
+}
+
+// verifBg is called by the background checkpoint store after its ticker fired ("tick") and after
+// it obtained the checkpoint ("snapshot"); the harness uses both as gates.
+func verifBg(ev string) {
+	if h := VerifHook; h != nil {
+		h("bg."+ev, map[string]any{})
+	}
+}
